@@ -21,7 +21,8 @@ RULE = ('case = fast configuration (DH group, ESP/AH, transport/tunnel, PFS or n
         'escapes main_loop, no contained internal error, no IkeSaStateError, error notifies in replies are within the RFC '
         '7296 2.25 table for (receiver state, request kind), after the drain no IKE_SA is in a *_REQ_SENT state and the two '
         'ends hold the same established IKE_SAs and CHILD_SAs. Non-trivial = some request was received while the receiver '
-        'had a request outstanding; distinct by the set of (receiver state, request kind) pairs plus the trigger sequence.')
+        'had a request outstanding; distinct by the set of (receiver state, request kind) pairs plus the trigger sequence. '
+        '2.25 also forbids the immediate retry: once an IKE_SA rekey request was answered TEMPORARY_FAILURE, the same IKE_SA emits no new one while the virtual clock stands still (forced triggers of the harness excepted).')
 ASSUMPTIONS = [
     'expire triggers are generated only for CHILD_SAs tracked by both ends at trigger time (the statement\'s restriction)',
     'the drain models "delivered or timed out": virtual clock, 1 s sweeps like the daemon\'s select timeout',
